@@ -319,11 +319,15 @@ func (mm *MinerManager) AddMiner(addr common.Address, miner *types.Miner, accoun
 	}
 
 	// a miner's stake, account and status live under sha256(id), sha256^2(id) and sha256^3(id):
-	// an id that names one of another miner's slots would overwrite it
-	if raw := accountdb.GetData(mm.getMinerDatabaseAddress(miner.Type), id); 0 != len(raw) {
-		msg := fmt.Sprintf("miner id is occupied. minerId: %s", common.ToHex(id))
-		mm.logger.Errorf(msg)
-		return false, msg
+	// an id that names one of another miner's slots would overwrite it, and so would an id
+	// one of whose own slots is another miner's record
+	db := mm.getMinerDatabaseAddress(miner.Type)
+	for i, key := 0, id; i < 4; i, key = i+1, common.Sha256(key) {
+		if raw := accountdb.GetData(db, key); 0 != len(raw) {
+			msg := fmt.Sprintf("miner id is occupied. minerId: %s", common.ToHex(id))
+			mm.logger.Errorf(msg)
+			return false, msg
+		}
 	}
 
 	existed := mm.GetMinerIdByAccount(miner.Account, accountdb)
